@@ -40,5 +40,6 @@ def run(ctx):
     ctx.tlc("MC_Driver", "MC_Driver_replyfirst", must_pass=False, label="MC_Driver_replyfirst(assumption)")
     ctx.tlc("MC_DriverGen", "MC_DriverGen_faults_" + t, replay="driver", coverage=False, case_timeout_ms=60000)
     ctx.tlc("MC_DriverGen", "MC_DriverGen_trunc", replay="driver", coverage=False, case_timeout_ms=60000)
+    ctx.tlc("MC_DriverGen", "MC_DriverGen_flood", replay="driver", coverage=False, case_timeout_ms=60000)
     trace = ctx.collect_events("driver")
     ctx.validate_events("Trace_Driver", trace)
